@@ -105,3 +105,68 @@ def meta_to_scenario(sid, script, filters):
               {"a": "closeDown", "g": "C", "obj": "D1", "ctxMs": 3000, "wait": True}, {"a": "quiesce"},
               {"a": "closeConn", "g": "main2", "wait": True, "ctxMs": 2000}, {"a": "quiesce", "ms": 50}]
     return {"id": sid, "kind": "iscp", "conn": {}, "steps": steps}
+
+
+TRACE_META_CFG = """SPECIFICATION TraceSpec
+CONSTANTS
+  Srcs = {"n1", "n2", "zz"}
+  Filters <- %(filters)s
+  NMeta = 1000000
+  Cap = 1024
+  InboxCap = 8
+  SharedSub = FALSE
+  RecordScript = FALSE
+VIEW TraceView
+CONSTRAINT HighWater
+POSTCONDITION TraceAccepted
+CHECK_DEADLOCK FALSE
+"""
+
+
+def meta_trace_lines(evs, sid):
+    """reduce the recorded events of one downmeta scenario to the input lines of TraceDownMeta.tla"""
+    import json
+    out = [json.dumps({"ev": "Reset", "sc": sid})]
+    for e in evs:
+        if e.get("ev") == "BSendMeta":
+            out.append(json.dumps({"ev": "BSendMeta", "sc": sid, "src": e.get("src", ""), "tag": e.get("tag", 0)}))
+        elif e.get("ev") == "ApiRet" and e.get("op") == "ReadMeta" and e.get("err") in ("", "ctx"):
+            out.append(json.dumps({"ev": "ReadMeta", "sc": sid, "err": e["err"], "src": e.get("src", ""), "tag": e.get("tag", 0)}))
+    return out
+
+
+def trace_validate_meta(ctx, fl, per_scenario):
+    """Validate the reduced traces (dict scenario id -> lines, in order) of the scenarios opened with filter list `fl` against
+    TraceDownMeta.tla. Returns the ids of the scenarios whose trace no behaviour of the specification explains."""
+    import re
+    from vlib import Inconclusive
+    rejected = []
+    todo = list(per_scenario.items())
+    while todo:
+        lines, owner = [], []
+        for sid, ls in todo:
+            lines += ls
+            owner += [sid] * len(ls)
+        path = os.path.join(ctx.work, "tracemeta-%s.ndjson" % fl)
+        with open(path, "w") as f:
+            f.write("\n".join(lines) + "\n")
+        cfg = "TraceDownMeta_%s.cfg" % fl
+        with open(os.path.join(SPEC, cfg), "w") as f:
+            f.write(TRACE_META_CFG % dict(filters=fl))
+        r = ctx.tlc("TraceDownMeta", cfg, workers=1, timeout=900, env={"VERIF_TRACE": path}, name="tracemeta-" + fl)
+        os.remove(os.path.join(SPEC, cfg))
+        hw = None
+        for s in r.printed:
+            m = re.match(r"HIGHWATER (\d+) OF (\d+)", s) if isinstance(s, str) else None
+            if m:
+                hw, total = int(m.group(1)), int(m.group(2))
+        if hw is None:
+            raise Inconclusive("trace validation against TraceDownMeta did not complete: %s" % (r.error or r.violated or "no high-water mark"))
+        ctx.cov["states"] += r.distinct
+        ctx.cov["transitions"] += r.generated
+        if hw >= total:
+            break
+        bad = owner[hw - 1]          # the event at position hw could not be consumed by any behaviour
+        rejected.append(bad)
+        todo = [(sid, ls) for sid, ls in todo if sid != bad]
+    return rejected
